@@ -1,5 +1,6 @@
 import Cvise.Proofs.RoundPar
 import Cvise.Proofs.DriverPar
+import Cvise.Proofs.DriverSafe
 /-!
 # C02 — parallel speculative reduction equals the sequential greedy reduction (round level)
 
